@@ -55,6 +55,9 @@ func genParams(r *rng, n int, tier string, emit func(string)) {
 		emit("overlay " + c + " brokers=b:9092 consumergroup=g buffersize=10 topic=t librdkafka.{topic}.auto.offset.reset=latest librdkafka.{topic}.x=y")
 		emit("overlay " + c + " brokers=b:9092 consumergroup=g buffersize=10 topic=t librdkafka.bootstrap.servers=other librdkafka.group.id=mine")
 	}
+	// through a real Setup: credential-like and ordinary overrides must reach every later client built from the same params
+	emit("setup kc brokers=127.0.0.1:1 consumergroup=g buffersize=10 topic=t librdkafka.sasl.username=u librdkafka.sasl.password=s3cr3t-Pa55 librdkafka.client.id=c1")
+	emit("setup rc brokers=127.0.0.1:1 consumergroup=g buffersize=10 topic=t librdkafka.sasl.password=pw librdkafka.ssl.key.password=kpw librdkafka.session.timeout.ms=7000 zz=leak")
 	emit("check brokers=b consumergroup=g topic=t buffersize=1")
 	emit("check brokers=b consumergroup=g topic=t buffersize=0")
 	emit("check brokers=b consumergroup=g topic=t buffersize=1 maxpartitionlag=-1")
@@ -74,6 +77,24 @@ func genParams(r *rng, n int, tier string, emit func(string)) {
 		"go.batch.producer", "go.delivery.reports", "go.application.rebalance.enable", "log.connection.close", "fetch.wait.max.ms", "debug", "api.version.request"}
 	vals := []string{"1", "0", "true", "false", "v", "latest", "earliest", "10.0.0.1:9092", "SASL_SSL", "-5", "A-b_c", "0500", "T", "00", "1e3", "TRUE", "0x10"}
 	for i := 0; i < n; i++ {
+		if r.chance(2) {
+			// real client properties only: Setup creates a librdkafka client from them
+			parts := []string{"setup", r.pickS("kc", "rc"), "brokers=127.0.0.1:1", "consumergroup=g", "buffersize=" + r.pickS("10", "1"), "topic=t"}
+			for _, k := range []string{"sasl.password", "sasl.username", "ssl.key.password", "client.id", "session.timeout.ms", "fetch.min.bytes", "ssl.keystore.password"} {
+				if r.chance(40) {
+					v := r.pickS("v", "s3cr3t", "********", "p w", "x:y")
+					if strings.HasSuffix(k, ".ms") || strings.HasSuffix(k, ".bytes") {
+						v = r.pickS("7000", "9000", "11")
+					}
+					parts = append(parts, "librdkafka."+k+"="+strings.ReplaceAll(v, " ", "_"))
+				}
+			}
+			if r.chance(30) {
+				parts = append(parts, "password=plain", "secret.token=zz")
+			}
+			emit(strings.Join(parts, " "))
+			continue
+		}
 		switch r.intn(10) {
 		case 0, 1, 2, 3:
 			client := r.pickS("kc", "rc", "mr", "kp")
@@ -247,13 +268,42 @@ func buildClientConf(client string, params map[string]string) (*kafka.ConfigMap,
 	return nil, fmt.Errorf("unknown client")
 }
 
+func confAfterSetup(client string, params map[string]string) (*kafka.ConfigMap, error) {
+	if client != "kc" && client != "rc" {
+		return nil, fmt.Errorf("setup applies to the source")
+	}
+	kc := &kafkaconsumer.KafkaConsumer{}
+	kc.Init("verif-setup", &recordingContext{})
+	if client == "rc" {
+		params["parallelrecoveryenabled"] = "true"
+		params["parallelrecoverymaxrecords"] = "1000"
+		params["parallelrecoverymaxrate"] = "100"
+	}
+	ch := make(chan firebolt.Event, 1)
+	if err := kc.Setup(params, ch); err != nil {
+		return nil, err
+	}
+	kc.VerifDetachMain(newScriptedConsumer())
+	rc := kc.VerifRecoveryConsumer()
+	if rc != nil {
+		rc.VerifDetach(newScriptedConsumer(), ch)
+	}
+	if client == "rc" {
+		if rc == nil {
+			return nil, fmt.Errorf("no recovery consumer")
+		}
+		return rc.VerifBuildConfigMap(params)
+	}
+	return kc.VerifBuildConfigMap(params)
+}
+
 func execParams(input string) string {
 	f := strings.Fields(input)
 	if len(f) == 0 {
 		return "bad-input"
 	}
 	switch f[0] {
-	case "overlay":
+	case "overlay", "setup":
 		all := map[string]string{}
 		base := map[string]string{}
 		min := map[string]string{}
@@ -271,7 +321,16 @@ func execParams(input string) string {
 				}
 			}
 		}
-		res, err := buildClientConf(f[1], all)
+		var res *kafka.ConfigMap
+		var err error
+		if f[0] == "setup" {
+			// a real KafkaConsumer.Setup runs on the caller's params map (with parallel recovery for "rc"); printed is the
+			// configuration the NEXT client built from that same map gets: the restarted source's (prepareSource calls Setup
+			// with the same map again) or the recovery consumer's
+			res, err = confAfterSetup(f[1], all)
+		} else {
+			res, err = buildClientConf(f[1], all)
+		}
 		if err != nil {
 			return "err"
 		}
